@@ -194,7 +194,7 @@ struct Endpoint {
             for (auto s : cfg.suites) if (n < 32) cs[n++] = s;
             rc = matrixSslNewClientSession(&ssl, k, cfg.sid, n ? cs : NULL, n, cfg.cert_cb, cfg.expected_name, NULL, NULL, &o);
             if (rc < 0) { ssl = nullptr; return rc; }
-            pump_out();
+            out_pending = true; pump_out();
             return rc;
         }
         if (nv) { rc = matrixSslSessOptsSetServerTlsVersions(&o, vs, nv); if (rc < 0) return rc; }
@@ -207,21 +207,40 @@ struct Endpoint {
 
     // ---- output side
     // Move everything currently in the library's output buffer to wire_out / dgram_out, in pieces of at most max_piece.
+    // DTLS: matrixDtlsGetOutdata on an empty buffer *is* the retransmission timer, so the harness only enters the
+    // documented "call until it returns 0" loop when output is known to be pending (after REQUEST_SEND, a successful
+    // encode, or session creation); timeouts are fired explicitly with dtls_timeout().
+    bool out_pending = false;
     void pump_out(size_t max_piece = (size_t) -1) {
         if (!ssl) return;
+        if (dtls) { if (!out_pending) return; out_pending = false; dtls_drain(); return; }
         for (int guard = 0; guard < 100000; guard++) {
             unsigned char *b = nullptr; sel();
-            int32 n = dtls ? matrixDtlsGetOutdata(ssl, &b) : matrixSslGetOutdata(ssl, &b);
+            int32 n = matrixSslGetOutdata(ssl, &b);
             if (n <= 0) return;
             size_t k = std::min((size_t) n, max_piece);
-            if (dtls) { dgram_out.emplace_back(b, b + n); k = (size_t) n; }
-            else wire_out.insert(wire_out.end(), b, b + k);
+            wire_out.insert(wire_out.end(), b, b + k);
             sel();
-            int32 rc = dtls ? matrixDtlsSentData(ssl, (uint32) k) : matrixSslSentData(ssl, (uint32) k);
+            int32 rc = matrixSslSentData(ssl, (uint32) k);
             note_sent_rc(rc);
-            if (dtls && rc != MATRIXSSL_REQUEST_SEND) return; // DTLS: calling GetOutdata again on an empty buffer would trigger a resend
         }
     }
+    // documented DTLS send loop: GetOutdata/SentData until GetOutdata returns 0. Returns number of datagrams produced.
+    int dtls_drain() {
+        int n_dg = 0;
+        for (int guard = 0; guard < 10000; guard++) {
+            unsigned char *b = nullptr; sel();
+            int32 n = matrixDtlsGetOutdata(ssl, &b);
+            if (n <= 0) { if (n < 0) { events.push_back({ EV_ERROR, n, 3 }); } return n_dg; }
+            dgram_out.emplace_back(b, b + n); n_dg++;
+            sel();
+            int32 rc = matrixDtlsSentData(ssl, (uint32) n);
+            note_sent_rc(rc);
+        }
+        return n_dg;
+    }
+    // retransmission timer fired: enter the send loop although nothing is pending
+    int dtls_timeout() { if (!ssl || !dtls) return 0; out_pending = false; return dtls_drain(); }
     void note_sent_rc(int32 rc) {
         if (rc == MATRIXSSL_REQUEST_CLOSE) { req_close = true; events.push_back({ EV_REQ_CLOSE, 0, 0 }); }
         else if (rc == MATRIXSSL_HANDSHAKE_COMPLETE) { complete_evt = true; events.push_back({ EV_HS_COMPLETE, 1, 0 }); }
@@ -267,8 +286,8 @@ struct Endpoint {
                 continue;
             }
             if (rc == MATRIXSSL_HANDSHAKE_COMPLETE) { complete_evt = true; events.push_back({ EV_HS_COMPLETE, 0, 0 }); return rc; }
-            if (rc == MATRIXSSL_REQUEST_SEND) { pump_out(); return rc; }
-            if (rc < 0) { failed = true; events.push_back({ EV_ERROR, rc, 0 }); pump_out(); return rc; }
+            if (rc == MATRIXSSL_REQUEST_SEND) { out_pending = true; pump_out(); return rc; }
+            if (rc < 0) { failed = true; events.push_back({ EV_ERROR, rc, 0 }); if (!dtls) pump_out(); return rc; }
             return rc; // SUCCESS / REQUEST_RECV / REQUEST_CLOSE
         }
         return last_rc;
@@ -302,11 +321,11 @@ struct Endpoint {
             rc = matrixSslEncodeWritebuf(ssl, (uint32) k);
         }
         events.push_back({ rc >= 0 ? EV_ENCODE_OK : EV_ENCODE_FAIL, rc, api });
-        if (rc >= 0) pump_out();
+        if (rc >= 0) { out_pending = true; pump_out(); }
         return rc;
     }
     int send(const Bytes &b, int api = 0) { return send(b.data(), b.size(), api); }
-    int send_close() { if (!ssl) return PS_ARG_FAIL; sel(); int32 rc = matrixSslEncodeClosureAlert(ssl); if (rc >= 0) pump_out(); return rc; }
+    int send_close() { if (!ssl) return PS_ARG_FAIL; sel(); int32 rc = matrixSslEncodeClosureAlert(ssl); if (rc >= 0) { out_pending = true; pump_out(); } return rc; }
 };
 
 // ------------------------------------------------------------------ pair driver (TLS streams and DTLS datagrams, loss-free)
@@ -344,6 +363,20 @@ struct Pair {
         return moved;
     }
 };
+
+// Open a client/server pair for one version + suite and run the handshake to completion (loss-free).
+inline bool connect_pair(Pair &p, int ver, const Suite &su, bool client_auth = false, sslSessionId_t *sid = nullptr,
+                         int estream = 1, sslCertCb_t srv_cb = nullptr) {
+    Config cc, sc;
+    cc.client = true; sc.client = false;
+    cc.versions = sc.versions = { ver };
+    cc.suites = { su.id }; cc.auth = sc.auth = su.auth;
+    cc.entropy_stream = estream; sc.entropy_stream = estream + 1;
+    cc.sid = sid; cc.client_auth = sc.client_auth = client_auth; sc.cert_cb = srv_cb;
+    if (p.s.open(sc) < 0) return false;
+    if (p.c.open(cc) < 0) return false;
+    return p.run() && p.c.alive() && p.s.alive();
+}
 
 // ------------------------------------------------------------------ record parsing helpers (wire level)
 struct Rec { size_t off; uint8_t type; uint16_t ver; size_t len; size_t hdr; uint16_t epoch; uint64_t seq; };
